@@ -228,10 +228,23 @@ impl<'a> Run<'a> {
             }
             let mut lower = target.clone();
             let mut inclusive = true;
-            for _step in 0..3 {
+            let mut reseeked = false;
+            for _step in 0..4 {
                 if let Some(_e) = it.take_error() {
                     self.info.errors_returned += 1;
-                    break;
+                    if reseeked {
+                        break;
+                    }
+                    // a step failed: go back to the target on the same iterator (the block the iterator
+                    // had just left) and judge that position
+                    reseeked = true;
+                    if it.seek(&target).is_err() {
+                        self.info.errors_returned += 1;
+                        break;
+                    }
+                    lower = target.clone();
+                    inclusive = true;
+                    continue;
                 }
                 let cur: Option<(Vec<u8>, Vec<u8>)> = if it.is_valid() { it.current().map(|(k, v)| (k.clone(), v.clone())) } else { None };
                 // no definitely-present key between the lower bound and the position may be skipped
